@@ -202,6 +202,27 @@ def o43(ctx):
             ctx.count(1)
             if not any(n[0] == "fillna" and n[1] in (0, 0.0) for n in sg.notes):
                 ctx.finding(q, ev.node, "missing values must be replaced by 0 before the STOPGAP table is written", ev.node, m)
+    # the converter with an output path: the file written holds the list the converter returns -- with update_coordinates=True the updated positions
+    # (the table handed to Starfile.write is read at the moment of the call: an update that runs after the write reaches the returned object only)
+    cq = "cryomotl.emmotl2stopgap"
+    mc, fc = ctx.prog.func(cq)
+    for upd in (False, True):
+        it = Interp(ctx.prog, no_inline=("starfileio.Starfile.write",), assume=assume_map({"update_coordinates": upd, "output_motl_path is not None": True}))
+        it.run(cq, [motl_frame(ctx.prog)], {"output_motl_path": K("out.star"), "update_coordinates": K(upd), "reset_index": K(False)})
+        evs = [e for e in it.events if e.kind == "call" and e.name == "cryocat.starfileio.Starfile.write"]
+        if len(evs) != 1:
+            raise Unsupported(f"emmotl2stopgap(path): expected one Starfile.write call, found {len(evs)}", fc)
+        frames = evs[0].arg(0, "frames")
+        if not (isinstance(frames, Seq) and len(frames.items) == 1 and isinstance(frames.items[0], Frame)):
+            raise Unsupported("emmotl2stopgap(path): frames argument of Starfile.write not recognised", evs[0].node)
+        src = {k: sym(k) for k in RENAMING}
+        if upd:
+            for c in "xyz":
+                s_ = mk("add", sym(c), sym("shift_" + c))
+                src[c] = T("rhu", s_)
+                src["shift_" + c] = mk("sub", s_, src[c])
+        check_sg_frame(ctx, it, cq, frames.items[0], src, False, f"emmotl2stopgap(list, path, update_coordinates={upd}): the file written", mc, fc,
+                       samplers=dict(INT_ID, **HALF))
     # option plumbing of the converters
     for cq, callee, kw, src_param in (("cryomotl.emmotl2stopgap", "write_out", "reset_index", "reset_index"),):
         mc, fc = ctx.prog.func(cq)
@@ -288,4 +309,4 @@ def _obligations():
 
 
 def obligations():
-    return _obligations() + [converters_obligation([("cryomotl.emmotl2stopgap", {"output_motl_path": K(None)}, {})]), constructors_obligation(['cryomotl.StopgapMotl']), labels_obligation("C04"), selectors_obligation("C04"), mutations_obligation("C04"), effects_obligation("C04"), plumbing_obligation("C04"), overrides_obligation("C04"), options_obligation("C04"), handlers_obligation("C04")]
+    return _obligations() + [converters_obligation([("cryomotl.emmotl2stopgap", {"output_motl_path": K(None)}, {})]), constructors_obligation(['cryomotl.StopgapMotl']), labels_obligation("C04"), selectors_obligation("C04"), mutations_obligation("C04"), loopstate_obligation("C04"), effects_obligation("C04"), plumbing_obligation("C04"), overrides_obligation("C04"), options_obligation("C04"), handlers_obligation("C04")]
